@@ -71,7 +71,7 @@ def tree_history(ctx, hseed):
         if name == "triekeys":
             return tuple(t.trie().keys())
 
-    def check_decoded(d, what, ids=True):
+    def check_decoded(d, what, ids=True, gen=0):
         md = TM.snap(d)
         if ids:
             if md != m0:
@@ -82,6 +82,27 @@ def tree_history(ctx, hseed):
             return f"{what}: decoded string differs"
         if bool(d.is_open()) != TM.is_open(m0):
             return f"{what}: decoded openness differs"
+        # derived behaviour of the decoded tree, against a cache-free twin rebuilt from the recorded structure (asking the
+        # original would fill its caches and change the history under test)
+        ref = to_dt(m0, keep_ids=True) if ids else to_dt(TM.snap(d), keep_ids=True)
+        if ids and not (d == ref):
+            return f"{what}: decoded tree is not == a tree with the same structure and ids"
+        if hash(d) != hash(ref):
+            return f"{what}: equal trees with different hashes (decoded {hash(d)}, rebuilt {hash(ref)})"
+        if d.structural_hash() != ref.structural_hash() or isinstance(d.structural_hash(), bool):
+            return f"{what}: structural_hash of the decoded tree is {d.structural_hash()!r}, of the same structure rebuilt {ref.structural_hash()!r}"
+        if len(d) != len(ref):
+            return f"{what}: len differs"
+        if rng.random() < 0.5:
+            kd = frozenset(str(p) for p in d.k_paths(graph, 3))
+            kr = frozenset(str(p) for p in ref.k_paths(graph, 3))
+            if kd != kr:
+                return f"{what}: k_paths of the decoded tree differ from those of the same structure rebuilt"
+        if gen == 0 and what != "CLI JSON" and rng.random() < 0.5:
+            # second generation: the decoded tree (its caches now filled by the checks above) is serialized again
+            how = rng.choice(["pickle", "json"])
+            d2 = pickle.loads(pickle.dumps(d)) if how == "pickle" else DerivationTree.from_json(d.to_json())
+            return check_decoded(d2, f"{what}, then {how} of the decoded tree", ids=ids, gen=1)
         return None
 
     for step in range(rng.randint(4, 14)):
